@@ -65,8 +65,10 @@ def make_case(prop, rng, tier, kind=None):
             holds.append(["kernel", 0, rng.choice([0, 0, 1, 1, 2, 3])])
     producers = 2 if rng.random() < 0.25 else 1       # two feeders (e.g. two workers of one machine), each with its own reservation
     gaps2 = [rng.choice(lat) + rng.choice([0, slot]) for _ in range(n)]
+    # a late start: the same scenario far from t=0 (absolute-clock arithmetic: tolerances relative to `now`, rounding of large times)
+    t0 = rng.choice([0] * 8 + [65536, 1048576])
     case = {"layer": "A", "kind": kind, "cfg": cfg, "nclients": 3, "ops": [], "final_adv": 0,
-            "meta": {"prop": prop, "lattice": lat_name, "scenario": {"gaps": gaps, "gaps2": gaps2, "producers": producers, "stalls": stalls, "n": n, "holds": holds,
+            "meta": {"prop": prop, "lattice": lat_name, "scenario": {"gaps": gaps, "gaps2": gaps2, "producers": producers, "stalls": stalls, "n": n, "holds": holds, "t0": t0,
                                                                    "style": style, "cstyle": cstyle}}}
     return case, GenBelt(case["meta"]["scenario"], slot, cap)
 
@@ -111,6 +113,10 @@ class GenBelt:
         self.count += 1
         if self.count > self.maxops:
             return None
+        if self.count == 1 and self.sc.get("t0"):
+            self.next_put += self.sc["t0"]
+            self.next_put2 += self.sc["t0"]
+            return ["adv", self.sc["t0"], "after"]
         now = h.env.now
         toks = h.toks.values()
         gp = [t for t in toks if t.kind == "p" and t.state == "granted"]
